@@ -239,7 +239,7 @@ class Mapping(BasicMapping):
             args = args.subs(lcoords_symbols_real_dict)
 
             obj._expressions = args
-            obj._constants   = tuple(a for a in constants if isinstance(constants_values[a.name], Symbol))
+            obj._constants   = tuple(constants_values[a.name] for a in constants if isinstance(constants_values[a.name], Symbol))
 
             args  = [obj[i] for i in range(pdim)]
             exprs = obj._expressions
